@@ -67,6 +67,12 @@ func init() {
 				noEffectOracle(c, "C07", d, name, rep)
 			} else {
 				c.Add("probe_succeeded", 1)
+				// probes that make the contract code panic, or name a method / contract that does
+				// not exist, cannot have succeeded: a SUCCESS receipt means the failure was lost
+				// and whatever the call did before it failed is kept
+				if strings.Contains(k.pr.name, "panic") || strings.HasPrefix(k.pr.name, "unknown-") {
+					c.Report("C07|failing-call-reported-as-success|"+k.pr.name, name+": the call cannot succeed (it panics inside the contract / names nothing that exists) but its receipt is SUCCESS", rep)
+				}
 			}
 			// view execution of the same probe (and of a state-writing call) changes nothing
 			if k.pos == "alone" {
